@@ -7,33 +7,44 @@ TARGETS = ["Base/Corr.vo", "Base/Fl.vo", "Base/Num.vo", "C01/Model.vo", "C01/Cor
            "C01/ProofsRefuted.vo", "C01/ProofsStore.vo", "C01/ProofsOps.vo", "C01/ProofsSound.vo", "C01/ProofsChain2.vo",
            "C01/ProofsProg.vo", "C01/ModelVariants.vo", "C01/ProofsAlias.vo", "C01/ProofsSpecial.vo",
            "C01/ProofsRed.vo", "C01/ProofsSmooth.vo", "C01/ProofsDag.vo", "C01/Props.vo",
-           "C01/ModelOpsLang.vo", "C01/Ops_gen.vo", "C01/ProofsGen.vo", "C01/ProofsGenR.vo", "C01/PropsGen.vo"]
-PROPS = ["C01/Props.v", "C01/PropsGen.v"]
+           "C01/ModelOpsLang.vo", "C01/Ops_gen.vo", "C01/ProofsGen.vo", "C01/ProofsGenR.vo", "C01/ProofsSeq.vo", "C01/ProofsLoop.vo", "C01/ProofsPred.vo",
+           "C01/PropsGen.vo", "C01/ProofsLSM.vo", "C01/ProofsLSMF.vo", "C01/PropsLSM.vo"]
+PROPS = ["C01/Props.v", "C01/PropsGen.v", "C01/PropsLSM.v"]
 PARTIAL = ("Theorems are over the reals and about the hand-written register-file model coq/C01/Model.v, tied to the source (a) by "
-           "translation: go2coq_c01 prints the expressions of all 72 combinator call sites and the bodies of the 28 composite methods "
-           "of scalar_real{64,32}_math{,_concrete}.go into coq/C01/Ops_gen.v on every run and PropsGen.v proves, for every carrier and "
-           "all arguments, that their denotation is the model's operation table / composite programs (predicates and the seven "
-           "vector/matrix loops are outside the translated grammar: hand-tied only, listed under translator.hand_tied_only), and (b) by the "
-           "bit-exact single-step replay. Proved: combinator algebra (all n, orders 0-2, every aliasing of receiver and operands; the "
+           "translation: go2coq_c01 prints, on every run, the expressions of all 72 combinator call sites, the bodies of the 28 composite "
+           "methods, (round 6) the 14 loops over vectors / matrices SmoothMax LogSmoothMax Vmean VdotV Vnorm Mtrace Mnorm (guards, local, "
+           "prologue, iteration scheme, loop body, Mnorm's first-element split, epilogue) and the 12 predicates Greater Smaller Sign (+ concrete "
+           "twins) of scalar_real{64,32}_math{,_concrete}.go into coq/C01/Ops_gen.v, and PropsGen.v proves, for every carrier, every vector "
+           "length and all arguments, that their denotation is the model's operation table / composite programs / reductions / comparisons "
+           "(only Equals / EQUALS stay outside the translated grammar: translator.hand_tied_only; the storage methods of scalar_real{64,32}.go "
+           "and the eight combinators of scalar_real*_derivative.go are hand-transcribed: Model.v, ModelVariants.v), and (b) by the bit-exact "
+           "single-step replay. Proved: combinator algebra (all n, orders 0-2, every aliasing of receiver and operands; the "
            "eight Go combinators transliterated one by one in ModelVariants.v are the two shared loops, and for every copy the aliased "
            "call c = a, c = b, c = a = b equals the fresh-receiver call; the gradient-before-Hessian order is refuted on the model; a "
            "receiver-operand that AllocForTwo reallocates is covered when it is a constant: step_dyadic_any_receiver), coefficient "
            "correctness of Neg Sin Cos Sinh Cosh Tan Tanh Exp Log Log1p Pow(const) and of the dyadic entries Add Sub Mul Div "
            "Pow(variable exponent, x>0) along every curve; Erf Erfc Gamma Lgamma LogErfc Mlgamma GammaP BesselI relative to the "
            "defining relations of the special functions (hypotheses of the statements), one- and two-argument chain-rule bridges, "
-           "storage operations, ad_sound for expression trees compiled to SSA register programs, its extension to DAGs (let-bound "
+           "storage operations (SetVariable of HEAD 8241a1e on any well-formed receiver, recycled storage included), frames of every model "
+           "step for every carrier, ad_sound for expression trees compiled to SSA register programs, its extension to DAGs (let-bound "
            "shared sub-results) with composite nodes Logistic Sigmoid Sqrt Abs Min Max LogAdd (program computes the closed-form jet; "
            "jets are derivatives for the let-free fragment over table operations, Logistic, Sigmoid, Sqrt), composite programs Logistic, "
-           "Sigmoid, Log1pExp (4 branches), Sqrt, Abs off 0, Min, Max, LogAdd, LogSub (+ -Inf short cuts for every carrier), and the "
-           "reductions Mtrace, Vmean, VdotV, Vnorm, Mnorm (sum of squares as coded), SmoothMax for a reused OR fresh accumulator. "
-           "NOT proved: LogSmoothMax (accumulators start at -Inf: no statement over R), derivative-of-the-denoted-function for Abs / Min / "
-           "Max / LogAdd DAG nodes (only their closed-form jets), LogBesselI coefficients, F-ALLOC cases (a receiver-operand of a "
-           "different non-zero shape: property C08). Binary64/binary32 rounding is covered per sampled case: bit-exact single-step replay "
+           "Sigmoid, Log1pExp (4 branches), Sqrt, Abs off 0, Min, Max, LogAdd for ANY receiver (accumulator pattern c.LogAdd(c, b, t) "
+           "included) with its coefficients proved to be derivatives along every curve, LogSub (+ -Inf short cuts for every carrier), the "
+           "reductions Mtrace, Vmean, VdotV, Vnorm, Mnorm (sum of squares as coded), SmoothMax for a reused OR fresh accumulator, and "
+           "LogSmoothMax in two halves: for every carrier with the three -Inf laws (proved for the binary64 replay carrier) the program "
+           "equals the one whose first iteration is Set (PropsLSM.logsmoothmax_first_iteration_is_set), and over the reals that program "
+           "leaves the jet of exp(LSE(alpha x + ln x) - LSE(alpha x)) whose value is the SmoothMax quotient on positive elements. "
+           "NOT proved: derivative-of-the-denoted-function for Abs / Min / Max DAG nodes (only their closed-form jets) and the integration "
+           "of logadd_coefficients_along_curves / lse_step into dag_jets_are_derivatives (the LogSmoothMax jet is built from lse_step "
+           "closed forms and table entries, not stated as partial derivatives of one real function), LogBesselI coefficients, F-ALLOC cases "
+           "(a receiver-operand of a different non-zero shape: property C08). Binary64/binary32 rounding is covered per sampled case: "
+           "bit-exact single-step replay "
            "of every operation (libm results supplied as oracle; deterministic streams for restarted registers with stale raw content, "
            "Pow with a magic exponent, and the full enumeration method x {generic, concrete} x alias pattern x {Real64, Real32} at "
            "order 2 / N >= 2 with dense non-proportional operand gradients, in-place programs and in-place typed vector/matrix "
            "element-wise methods) and Coq-Interval certificates |model_R - Go| <= 2^-40 relative for the elementary operations and "
-           "depth<=3 DAGs.")
+           "depth<=3 DAGs. The hunt now carries closed forms (value, gradient, Hessian) of the seven reductions.")
 CORPUS = os.path.join(vlib.ROOT, "corpus/C01/corpus.jsonl")
 
 
@@ -78,9 +89,12 @@ def translate(ctx):
     if new != committed:
         # which methods read differently now: the hunt is aimed at them
         def blocks(txt):
-            return set(b.strip() for b in re.split(r"(?m)^  (?=mkEntry|mkBody|mkUntied)", txt))
+            return set(b.strip() for b in re.split(r"(?m)^  (?=mkEntry|mkBody|mkLoop|mkPred|mkUntied)", txt))
         changed = sorted(set(re.findall(r'^mk\w+ "\w+" "(\w+)"', b)[0] for b in blocks(new) ^ blocks(committed)
                              if re.match(r'mk\w+ "\w+" "(\w+)"', b)))
+        # a predicate has no sweep of its own: aim the hunt at the operations that branch on it
+        users = {"Sign": ["Abs"], "SIGN": ["Abs"], "Greater": ["LogAdd"], "GREATER": ["LogAdd"], "Smaller": ["Min", "Max"], "SMALLER": ["Min", "Max"]}
+        changed = sorted(set(changed) | set(u for m in changed for u in users.get(m, [])))
         ctx.cov["ops_gen_changed_methods"] = changed
         if os.path.abspath(vlib.REPO) == "/repo":
             open(committed_path, "w").write(new)
@@ -94,7 +108,7 @@ def translate(ctx):
                 os.makedirs(os.path.join(root, d), exist_ok=True)
                 for f in glob.glob(os.path.join(vlib.ROOT, "coq", d, "*")) + glob.glob(os.path.join(vlib.ROOT, "coq", d, ".*.aux")):
                     stem = os.path.basename(f).lstrip(".").split(".")[0]
-                    if stem in ("Ops_gen", "ProofsGen", "ProofsGenR", "PropsGen") and not f.endswith(".v"):
+                    if stem in ("Ops_gen", "ProofsGen", "ProofsGenR", "ProofsLoop", "ProofsPred", "PropsGen") and not f.endswith(".v"):
                         continue   # compiled from the committed Ops_gen.v: must be rebuilt
                     if os.path.isfile(f):
                         shutil.copy2(f, os.path.join(root, d, os.path.basename(f)))
@@ -156,13 +170,19 @@ def cert(ctx, binary, n):
     rounds = 0
     done_ok = 0
     failed_shards = set()
-    while pending and rounds < 4:
+    timeouts = {}
+    while pending and rounds < 7:
         rounds += 1
-        res = vlib.eval_shards([p for _, p in pending], timeout=600)
+        res = vlib.eval_shards([p for _, p in pending], timeout=1500)
         nxt = []
         for (k, p), r in zip(pending, res):
             if r["ok"]:
                 done_ok += 1
+                continue
+            if "[timeout after" in (r["error"] or "") and timeouts.get(k, 0) < 2:
+                # a loaded machine, not a failing goal (a shard takes ~10 s of CPU): run it again
+                timeouts[k] = timeouts.get(k, 0) + 1
+                nxt.append((k, p))
                 continue
             failed_shards.add(k)
             ms = re.findall(r'line (\d+), characters [^\n]*\n\s*Error', r["error"] or "")
@@ -218,8 +238,9 @@ def run(ctx):
     ok = ok and not tfail
     thms = vlib.theorem_names(os.path.join(vlib.COQ, "C01/Props.v"))
     gthms = vlib.theorem_names(os.path.join(vlib.COQ, "C01/PropsGen.v"))
+    lthms = vlib.theorem_names(os.path.join(vlib.COQ, "C01/PropsLSM.v"))
     if ok and ctx.tier == "thorough":
-        ctx.cov["print_assumptions"] = vlib.print_assumptions("C01", [("C01.Props", thms), ("C01.PropsGen", gthms)], ctx.dir)
+        ctx.cov["print_assumptions"] = vlib.print_assumptions("C01", [("C01.Props", thms), ("C01.PropsGen", gthms), ("C01.PropsLSM", lthms)], ctx.dir)
     binary, blog = vlib.build_harness("c01")
     if binary is None:
         ctx.violation({"obligation": "build of harness/c01 against the library", "log": blog[-3000:]}, False,
